@@ -4,7 +4,8 @@ ROOT=$(cd "$(dirname "$0")/.." && pwd)
 # record the outcome in seeded/<id>/meta.json and seeded/RESULTS.md.  Never touches /repo's working tree.
 tier=${1:-quick}; jobs=${2:-4}
 cd "$ROOT"
-ls -d seeded/*/ | sed 's#/$##' | xargs -P "$jobs" -I{} bash -c '
+# ONLY="id1 id2 ..." restricts the run to those seeds (the table is rebuilt from all meta.json files)
+{ if [ -n "${ONLY:-}" ]; then for i in $ONLY; do echo seeded/$i; done; else ls -d seeded/*/ | sed 's#/$##'; fi; } | xargs -P "$jobs" -I{} bash -c '
   d={}; id=$(basename $d); prop=$(python3 -c "import json;print(json.load(open(\"$d/meta.json\"))[\"property\"])")
   cp $d/patch.diff /tmp/seedrun-$id.patch
   res=$(SKIP_TESTS=1 tools/try_mutant.sh /tmp/seedrun-$id.patch $prop '"$tier"' 2>&1 | tail -1); rm -f /tmp/seedrun-$id.patch
